@@ -396,7 +396,10 @@ def main(argv):
                 continue
             if f['proved_here']:
                 nob = f.get('ensures', 0) + f.get('invariants', 0) + f.get('builtin_sites', 0) + 1
-                nfail = len(failed_fns.get(f['fn'], []))
+                errs = [e for e in failed_fns.get(f['fn'], []) if prop in err_props(e)]
+                nknown = sum(1 for e in errs if any(finding_matches(kf, prop, e) for kf in known['findings']))
+                nfail = len(errs) - nknown
+                nob -= nknown   # obligations listed as known findings are reported separately, not counted
                 n_obl += nob
                 n_dis += max(0, nob - nfail) if r['status'] != 'undecided' else 0
                 fns.append({'fn': f['fn'], 'file': f['file'], 'unit': r['unit'],
